@@ -640,6 +640,7 @@ TOP:
 	case *Object:
 		_ = root.assureType(obj, tt)
 		if fd = tt.GetField(field.Name); fd != nil {
+			verifYield("fd.mu:" + fd.N)
 			fd.mu.Lock()
 			if len(fd.goField) == 0 && fd.method == nil {
 				err = root.regField(tt, fd, field.Name)
@@ -649,6 +650,7 @@ TOP:
 	case *Schema:
 		_ = root.assureType(obj, &tt.Object)
 		if fd = tt.GetField(field.Name); fd != nil {
+			verifYield("fd.mu:" + fd.N)
 			fd.mu.Lock()
 			if len(fd.goField) == 0 && fd.method == nil {
 				err = root.regField(&tt.Object, fd, field.Name)
@@ -665,6 +667,7 @@ TOP:
 		return
 	}
 	if fd != nil {
+		verifYield("fd.mu:" + fd.N)
 		fd.mu.Lock()
 		goField := fd.goField
 		method := fd.method
